@@ -1,4 +1,5 @@
 //! C12 — marginal MAP, MEU and the generic branch-and-bound return true optima.
+use crate::walk::bdd_tt;
 use crate::bddi::{order_keys_strategy, perm_from_keys};
 use crate::engine::*;
 use crate::fnsrc::*;
@@ -36,6 +37,9 @@ pub struct MapCase {
     pub qkeys: Vec<u16>,
     /// weights k/8: (low, high) selectors per variable
     pub w: Vec<(u8, u8)>,
+    /// the num_vars argument of the queries is n + extra_vars % 4 (sizes the returned partial model only)
+    #[serde(default)]
+    pub extra_vars: u8,
 }
 
 pub struct Map;
@@ -46,6 +50,9 @@ pub fn run_map(case: &MapCase, st: &mut Stats) -> CaseResult {
     let order = perm_from_keys(&case.order, n);
     let b = RobddBuilder::<AllIteTable<BddPtr>>::new(VarOrder::new(&order.iter().map(|v| VarLabel::new_usize(*v)).collect::<Vec<_>>()));
     let f = bdd_from_tt(&b, t, n);
+    // the optimum is taken over the function the diagram denotes (whether the builder produced the requested
+    // one is C01's concern)
+    let t = bdd_tt(f);
     // query set in an arbitrary order
     let mut q: Vec<usize> = (0..n).filter(|v| (case.qmask >> v) & 1 == 1).collect();
     let qk: Vec<u16> = q.iter().map(|v| case.qkeys.get(*v).copied().unwrap_or(0)).collect();
@@ -127,9 +134,10 @@ pub fn run_map(case: &MapCase, st: &mut Stats) -> CaseResult {
         );
         Ok(())
     };
-    let (v1, m1) = f.marginal_map(&qlbl, n, &params);
+    let nv = n + (case.extra_vars % 4) as usize;
+    let (v1, m1) = f.marginal_map(&qlbl, nv, &params);
     check("marginal_map", v1, &m1)?;
-    let (v2, m2) = f.bb::<RealSemiring>(&qlbl, n, &params);
+    let (v2, m2) = f.bb::<RealSemiring>(&qlbl, nv, &params);
     check("bb-real", v2.0, &m2)?;
     let in_support = q.iter().filter(|v| t.depends(**v)).count();
     let mut dv = values.clone();
@@ -148,7 +156,7 @@ pub fn run_map(case: &MapCase, st: &mut Stats) -> CaseResult {
 impl SubCheckT for Map {
     type Case = MapCase;
     const NAME: &'static str = "marginal_map";
-    const RULE: &'static str = "random function over <=6 variables under a random order; query set = any subset in any order (empty, all, variables outside the support); weights k/8 in [0,1], normalised on non-query variables, arbitrary on query variables: marginal_map and bb::<RealSemiring> return exactly the maximum over all query assignments of the weighted count restricted to the assignment (exhaustive enumeration, exact dyadic arithmetic), the returned model assigns every query variable and attains that value (any maximiser accepted on ties). Non-trivial: >=2 query variables in the support and >=2 distinct values among query assignments";
+    const RULE: &'static str = "random function over <=6 variables under a random order; query set = any subset in any order (empty, all, variables outside the support); weights k/8 in [0,1], normalised on non-query variables, arbitrary on query variables: marginal_map and bb::<RealSemiring> return exactly the maximum over all query assignments of the weighted count restricted to the assignment (exhaustive enumeration, exact dyadic arithmetic), the returned model assigns every query variable and attains that value (any maximiser accepted on ties); num_vars = n..n+3. Non-trivial: >=2 query variables in the support and >=2 distinct values among query assignments";
     fn cases(tier: Tier) -> u32 {
         tier.pick(30_000, 300_000)
     }
@@ -160,12 +168,9 @@ impl SubCheckT for Map {
             proptest::collection::vec(any::<u16>(), 8),
             proptest::collection::vec((0u8..9, 0u8..9), 8),
         )
-            .prop_map(|(src, order, qmask, qkeys, w)| MapCase {
-                src,
-                order,
-                qmask,
-                qkeys,
-                w,
+            .prop_map(|(src, order, qmask, qkeys, w)| {
+                let extra_vars = (qkeys.iter().fold(0u16, |a, b| a ^ b) % 4) as u8;
+                MapCase { src, order, qmask, qkeys, w, extra_vars }
             })
             .boxed()
     }
@@ -187,6 +192,9 @@ pub struct MeuCase {
     pub dkeys: Vec<u16>,
     /// (p selector, u0, u1)
     pub w: Vec<(u8, u8, u8)>,
+    /// the num_vars argument of the queries is n + extra_vars % 4
+    #[serde(default)]
+    pub extra_vars: u8,
 }
 
 pub struct Meu;
@@ -264,6 +272,9 @@ pub fn run_meu(case: &MeuCase, st: &mut Stats) -> CaseResult {
     };
     let b = RobddBuilder::<AllIteTable<BddPtr>>::new(VarOrder::new(&order.iter().map(|v| VarLabel::new_usize(*v)).collect::<Vec<_>>()));
     let f = bdd_from_tt(&b, t, n);
+    // the optimum is taken over the function the diagram denotes (whether the builder produced the requested
+    // one is C01's concern)
+    let t = bdd_tt(f);
     let value = |asg: &[(usize, bool)]| -> (f64, f64) { order_aware_unsmoothed(cofactor_all(t, asg), &order, &w, &eops) };
     let mut best = f64::NEG_INFINITY;
     let mut values: Vec<f64> = Vec::new();
@@ -300,7 +311,8 @@ pub fn run_meu(case: &MeuCase, st: &mut Stats) -> CaseResult {
             d
         );
         let asg: Vec<(usize, bool)> = d.iter().map(|v| (*v, m[*v].unwrap())).collect();
-        let val = value(&asg).1;
+        let full = value(&asg);
+        let val = full.1;
         ensure!(
             val == best,
             format!("C12/{}-assignment-does-not-attain-the-value", name),
@@ -310,11 +322,25 @@ pub fn run_meu(case: &MeuCase, st: &mut Stats) -> CaseResult {
             val,
             best
         );
+        // the returned value is the weighted count of the function restricted to the returned assignment: both
+        // components (probability mass, expected utility)
+        ensure!(
+            got.0 == full.0,
+            format!("C12/{}-value-is-not-the-count-under-the-returned-assignment", name),
+            "{} returned ({}, {}) with decisions {:?}, under which the restricted count is ({}, {})",
+            name,
+            got.0,
+            got.1,
+            asg,
+            full.0,
+            full.1
+        );
         Ok(())
     };
-    let (v1, m1) = f.meu(&dl, n, &params);
+    let nv = n + (case.extra_vars % 4) as usize;
+    let (v1, m1) = f.meu(&dl, nv, &params);
     check("meu", v1, &m1)?;
-    let (v2, m2) = f.bb::<ExpectedUtility>(&dl, n, &params);
+    let (v2, m2) = f.bb::<ExpectedUtility>(&dl, nv, &params);
     check("bb-expected-utility", v2, &m2)?;
     let in_support = d.iter().filter(|v| t.depends(**v)).count();
     let mut dv = values.clone();
@@ -333,7 +359,7 @@ pub fn run_meu(case: &MeuCase, st: &mut Stats) -> CaseResult {
 impl SubCheckT for Meu {
     type Case = MeuCase;
     const NAME: &'static str = "meu";
-    const RULE: &'static str = "random function over <=6 variables; variables are decisions (unit weight), chance (p,0)/(1-p,0) or utility-bearing (indicator style (1,0)/(1,u) or probabilistic (p,p*u0)/(1-p,(1-p)*u1), u>=0), the order being built so that every utility-bearing variable follows all decision variables; meu and bb::<ExpectedUtility> return exactly the maximum over decision assignments of the expected-utility component of the order-aware unsmoothed count of the restricted function (exhaustive, exact dyadics), with a complete decision assignment that attains it. Non-trivial: >=2 decision variables in the support and >=2 distinct values";
+    const RULE: &'static str = "random function over <=6 variables; variables are decisions (unit weight), chance (p,0)/(1-p,0) or utility-bearing (indicator style (1,0)/(1,u) or probabilistic (p,p*u0)/(1-p,(1-p)*u1), u>=0), the order being built so that every utility-bearing variable follows all decision variables; meu and bb::<ExpectedUtility> return exactly the maximum over decision assignments of the expected-utility component of the order-aware unsmoothed count of the restricted function (exhaustive, exact dyadics), with a complete decision assignment that attains it and under which the restricted count equals the returned pair; num_vars = n..n+3. Non-trivial: >=2 decision variables in the support and >=2 distinct values";
     fn cases(tier: Tier) -> u32 {
         tier.pick(30_000, 300_000)
     }
@@ -345,12 +371,9 @@ impl SubCheckT for Meu {
             proptest::collection::vec(any::<u16>(), 8),
             proptest::collection::vec((0u8..9, 0u8..5, 0u8..5), 8),
         )
-            .prop_map(|(src, order, roles, dkeys, w)| MeuCase {
-                src,
-                order,
-                roles,
-                dkeys,
-                w,
+            .prop_map(|(src, order, roles, dkeys, w)| {
+                let extra_vars = (dkeys.iter().fold(0u16, |a, b| a ^ b) % 4) as u8;
+                MeuCase { src, order, roles, dkeys, w, extra_vars }
             })
             .boxed()
     }
